@@ -14,7 +14,8 @@ LEVEL = "exploration"
 RULE = ("the finite declaration log of all shipped modules is enumerated completely: every declaration (edge), every "
         "fundamental cycle (non-tree declaration), every overwritten unit pair and every named unit; distinct = the "
         "declaration / cycle / unit itself; non-trivial = cycle of length >= 2, unit is not an SI base unit"
-        " Before the sweep, questions the planner abandons half-way are each followed by first-time conversions; half of the units convert an area / volume / inverse first.")
+        " Before the sweep, questions the planner abandons half-way are each followed by first-time conversions; half of the units convert an area / volume / inverse first."
+        " The aliasing probe (augmented assignment on aliases of measured.physics constants and Unit.quantify() results) runs first.")
 ASSUMPTIONS = [
     "consistency is judged among the declared numbers only (a constant that is wrong in the real world but agrees with "
     "every other declaration is invisible)",
